@@ -94,21 +94,22 @@ func (m *manualCtx) fire() {
 
 // Cfg configures the bus for a program.
 type Cfg struct {
-	PanicHandler bool  `json:"panic_handler,omitempty"`
-	PHBySetter   bool  `json:"ph_by_setter,omitempty"`
-	BeforeLegacy bool  `json:"before_legacy,omitempty"`
-	BeforeCtx    bool  `json:"before_ctx,omitempty"`
-	AfterLegacy  bool  `json:"after_legacy,omitempty"`
-	AfterCtx     bool  `json:"after_ctx,omitempty"`
-	HooksSetter  bool  `json:"hooks_by_setter,omitempty"` // legacy hooks installed by Set*Hook after New
-	Obs          bool  `json:"obs,omitempty"`
-	Store        bool  `json:"store,omitempty"`
-	StoreFirst   bool  `json:"store_first,omitempty"` // WithStore before the hook options (else after)
-	FailAppends  []int `json:"fail_appends,omitempty"`
-	ErrHandler   bool  `json:"err_handler,omitempty"`
-	PHNil        bool  `json:"ph_nil,omitempty"`       // the panic handler is explicitly nil (WithPanicHandler(nil) / SetPanicHandler(nil) after a real one)
-	PHRepublish  bool  `json:"ph_republish,omitempty"` // the panic handler re-publishes an event of the panicking handler's type (a retry)
-	HookPublish  int   `json:"hook_publish,omitempty"` // 1..4: that hook (before, beforectx, after, afterctx) publishes one nested event per top-level publish
+	PanicHandler   bool  `json:"panic_handler,omitempty"`
+	PHBySetter     bool  `json:"ph_by_setter,omitempty"`
+	BeforeLegacy   bool  `json:"before_legacy,omitempty"`
+	BeforeCtx      bool  `json:"before_ctx,omitempty"`
+	AfterLegacy    bool  `json:"after_legacy,omitempty"`
+	AfterCtx       bool  `json:"after_ctx,omitempty"`
+	HooksSetter    bool  `json:"hooks_by_setter,omitempty"` // legacy hooks installed by Set*Hook after New
+	Obs            bool  `json:"obs,omitempty"`
+	Store          bool  `json:"store,omitempty"`
+	StoreFirst     bool  `json:"store_first,omitempty"` // WithStore before the hook options (else after)
+	FailAppends    []int `json:"fail_appends,omitempty"`
+	ErrHandler     bool  `json:"err_handler,omitempty"`
+	PHNil          bool  `json:"ph_nil,omitempty"`          // the panic handler is explicitly nil (WithPanicHandler(nil) / SetPanicHandler(nil) after a real one)
+	PHRepublish    bool  `json:"ph_republish,omitempty"`    // the panic handler re-publishes an event of the panicking handler's type (a retry)
+	PersistTimeout bool  `json:"persist_timeout,omitempty"` // WithPersistenceTimeout(1h) next to the store: it bounds the append only
+	HookPublish    int   `json:"hook_publish,omitempty"`    // 1..4: that hook (before, beforectx, after, afterctx) publishes one nested event per top-level publish
 }
 
 // Program is a configuration plus top-level operations.
@@ -330,6 +331,9 @@ func NewWith(drivers []evt.Driver, p *Program, viol func(sig, desc string), obsF
 		if c.Store {
 			e.Store = ebu.NewMemoryStore()
 			opts = append(opts, ebu.WithStore(&failStore{e: e, inner: e.Store}), ebu.WithSubscriptionStore(e.Store))
+			if c.PersistTimeout {
+				opts = append(opts, ebu.WithPersistenceTimeout(time.Hour))
+			}
 		}
 	}
 	if c.StoreFirst {
@@ -616,8 +620,12 @@ func (e *Engine) doSub(op *Op) {
 	if spec.Replay && e.P.Cfg.Store && !spec.Ctx {
 		// replay phase: every persisted event of this type, in log order, straight to the handler
 		rf := &replayFrame{reg: r}
+		// a typed replay subscription selects stored events by the type name derived from the Go type;
+		// for an event type whose name depends on the value only the events stored under that name
+		// can be selected (the statement derives names from types, C15)
+		typeName := ebu.EventType(d.Make(0))
 		for _, pe := range e.persisted {
-			if pe.typ == op.T {
+			if pe.typ == op.T && ebu.EventType(d.Make(pe.eid)) == typeName {
 				rf.want = append(rf.want, pe.eid)
 			}
 		}
